@@ -21,7 +21,7 @@ def item_to_harness(it):
             out['pad'] = 17000
             out['unterminated'] = True
             out['v'] = 'ok'
-        for k in ('ext', 'proto', 'accept', 'upgrade', 'status', 'extra'):
+        for k in ('ext', 'proto', 'accept', 'upgrade', 'status', 'extra', 'size', 'spell'):
             if k in it:
                 out[k] = it[k]
         return out
